@@ -353,6 +353,17 @@ fn check_fac_inner(mode: Mode, c: &FacCase) -> CaseResult {
         if mode == Mode::Functional {
             let mut leaves = vec![];
             sync_fac_leaves(&tree, &mut leaves);
+            // ... and in the order of the composition (first stage first)
+            let order: Vec<usize> = w.log.borrow()[log_start..].iter().filter_map(|e| match e {
+                Ev::NewService { leaf, .. } if leaves.contains(leaf) => Some(*leaf),
+                _ => None,
+            }).collect();
+            let mut dedup = order.clone();
+            dedup.dedup();
+            if dedup.len() == leaves.len() && order.len() == leaves.len() {
+                vensure!(order == leaves, "C11/init-order",
+                    "build {}: `new_service` called the inner factories in the order {:?} (leaf ids); the composition starts them first stage first: {:?}", build, order, leaves);
+            }
             for leaf in leaves {
                 let started = w.log.borrow()[log_start..].iter().any(|e| matches!(e, Ev::NewService { leaf: l, .. } if *l == leaf));
                 vensure!(started, "C11/init-deferred",
